@@ -49,4 +49,34 @@ reg(
     TRUSTED + "For SE(3) only tangent directions are claimed (radial quaternion direction is implementation-specific).",
 )
 
+reg(
+    "C03",
+    "DESIGN.md section 4 C03",
+    "property-based testing (Hypothesis): generated graphs; one optimizer iteration vs dense reference normal equations (AD Jacobians, numpy.linalg.solve)",
+    "Generated-input search over well-posed graphs of every family (mixed dimensionality, parallel and reversed edges, permuted vertex lists, "
+    "arbitrary ids, several fixed vertices, unary/binary/ternary custom edges, fix_first_pose T/F): the increment actually applied by "
+    "optimize(tol=0,max_iter=1) is recovered with the reference model and must satisfy the independently assembled dense normal equations "
+    "(backward residual 1e-9 relative; direct difference 1e-9*cond) and fixed vertices must not move; reported chi2 values equal the reference chi2.",
+    TRUSTED + "Cases with cond(H_ff) > 1e10 or a predicted rotational step >= 0.9 (boxplus clipping) are discarded and counted.",
+)
+reg(
+    "C04",
+    "DESIGN.md section 4 C04",
+    "property-based testing (Hypothesis): generated linear graphs; differential against an independent closed-form weighted least squares (Cholesky whitening + lstsq)",
+    "Generated-input search over R2/R3 graphs of 2..30 vertices (trees, loops, multi-edges, reversed edges, point-to-point landmark edges with offsets, "
+    "SPD information with cross terms up to cond 1e4, inconsistent measurements, any fixed subset >= 1, initial guesses up to 1e6 away, default and random "
+    "tol/max_iter): optimized positions and final_chi2 equal the independent closed-form optimum.",
+    TRUSTED + "No claim on the `converged` flag.",
+)
+reg(
+    "C06",
+    "DESIGN.md section 4 C06",
+    "property-based testing with fault injection (Hypothesis): generated graphs x fixed-subset modes incl. singular systems, isolated fixed/free vertices, diverging runs; invariants on fixed vertices + reduced-problem oracles",
+    "Generated-input and fault-sequence search: for 10 fixed-subset modes (one anchor, several, all, isolated fixed vertices, isolated free vertex => exactly singular "
+    "system, only landmarks fixed, none fixed, diverging) and 1..20 iterations, every vertex fixed at solve time is bitwise unchanged and finite in every "
+    "outcome, the fixed flags follow fix_first_pose exactly, the free vertices solve the reduced problem (closed form for R^n, dense reference GN step "
+    "for SE(n)), and fixing more vertices / appending isolated fixed vertices keeps the problem solvable. Found and repaired defect F1 (commit 86cf728).",
+    TRUSTED + "In singular solves only fixed vertices and flags are judged (scipy may return NaN or garbage for free unknowns).",
+)
+
 NOT_YET = {}
